@@ -380,7 +380,8 @@ class Evaluator:
         vals = []
         for x in p['exprs']:
             v = self.ev(x)
-            self.tostr.append(v)
+            if not (isinstance(v, tuple) and v and v[0] in ('tpl', 'lit', 'pure')):
+                self.tostr.append(v)        # coercing a string / literal is not observable
             vals.append(('tostring', v))
         return ('tpl', tuple((q['raw'] if isinstance(q, dict) else q) for q in p['quasis'])) + tuple(vals)
 
